@@ -31,6 +31,12 @@
    P9  NasIdentifier   an Access-Request leaves the client with the configured NAS-Identifier.
    P10 MemorySafe      no path touches a socket / task / query after it was freed, no NULL dereference on a failing
                        socket() (observed by ASan / signals in the driver, modelled as the flag st.unsafe).
+   P11 BufferUnits     the client's sockets get the send / receive buffer sizes of the settings, which are in kilobytes
+                       (a 256-byte receive buffer makes the kernel drop back-to-back replies).
+   The invariants are PCompleteOnce, PNoTxAfterDone, PTxBound (+ IDuration in MC_X02), PSlots, PMatch, PDelivered, PFailover,
+   PQuiescent, PDestroyed, PArmed, PNas, PMemSafe, PBufUnits; the liveness formula is Termination in MC_X02.
+   "Callback on the owning thread", "exactly the predicted transmissions / timer values / sockets" and "no leak" (ledger
+   of query blocks, timerfds, sockets) are enforced line by line on the real client by X02Trace.
 
    The module is a state machine shaped like the implementation: one handler per entry point of the client on the
    pool thread (query message, timer expiry, datagram arrival, destroy message) and per API call (query, cancel),
@@ -61,8 +67,9 @@ DvSockNull   == "socket-create-failure-null-deref"
 DvSelfFree   == "socket-freed-inside-its-receive-callback"
 DvDestroyHalf == "destroy-frees-every-other-socket"
 DvDestroyTmr == "destroy-leaves-timers-of-pending-queries"
+DvBufUnits   == "socket-buffer-kilobytes-passed-as-bytes"
 AllDevs == {DvReply, DvNas, DvNoFoTime, DvNoFoStart, DvResign, DvCancel, DvReqCode, DvZeroRt, DvSockNull, DvSelfFree,
-            DvDestroyHalf, DvDestroyTmr}
+            DvDestroyHalf, DvDestroyTmr, DvBufUnits}
 
 Min(S) == CHOOSE x \in S : \A y \in S : x <= y
 EmptyMap == [x \in {} |-> 0]
@@ -77,14 +84,14 @@ NewQuery(thr, idany, id, nonce, pwd) ==
    signed |-> FALSE, sig |-> 0, canc |-> FALSE, cbs |-> 0, res |-> -1, match |-> 0, deliv |-> FALSE]
 NewSock(u) == [u |-> u, slot |-> EmptyMap, tm |-> EmptyMap, qidx |-> 0, cnt |-> 0]
 InitState(smin, smax, nas, nthr) ==
-  [cfg |-> [smin |-> smin, smax |-> smax, nas |-> nas, nthr |-> nthr],
+  [cfg |-> [smin |-> smin, smax |-> smax, nas |-> nas, nthr |-> nthr, rcvkb |-> 256, sndkb |-> 128],
    srv |-> << >>, unreach |-> << >>, sockfail |-> 0,
    qs |-> EmptyMap,
    sk |-> [key \in (0..(nthr - 1)) \X Fams |-> << >>],
    msgs |-> [t \in 0..(nthr - 1) |-> << >>],
    netq |-> {}, netr |-> {}, nextu |-> 1, nextx |-> 1,
    up |-> TRUE, leaktm |-> 0, leaksk |-> 0,
-   unsafe |-> {}, txac |-> FALSE, offarm |-> FALSE, nasbad |-> FALSE]
+   unsafe |-> {}, txac |-> FALSE, offarm |-> FALSE, nasbad |-> FALSE, bufbad |-> FALSE]
 NewServer(fam, irt, mrt, mrd, mrc, sec) == [fam |-> fam, irt |-> irt, mrt |-> mrt, mrd |-> mrd, mrc |-> mrc, sec |-> sec]
 
 (* jitter: radius_client_rnd_factor(data) = +-(data / k), k in 1..127.  J = [def |-> class, map |-> <<<<d, class>>...>>] *)
@@ -196,9 +203,14 @@ Link(st, q, f, dv) ==
                 [e |-> "maycrash", t |-> t, dev |-> DvSockNull] >>,
              st.sockfail, {DvSockNull}, IF DvSockNull \in dv THEN {DvSockNull} ELSE {})
      ELSE LET u == st.nextu
-              st1 == [st EXCEPT !.nextu = @ + 1, !.sk[key] = Append(@, NewSock(u))]
-          IN Attach(st1, q, f, Len(L) + 1, IF Q.idany THEN 0 ELSE Q.id,
-                    << [e |-> "skt.new", t |-> t, u |-> u, fam |-> f, rc |-> 0] >>)
+              bad == DvBufUnits \in dv
+              mul == IF bad THEN 1 ELSE 1024       \* the settings are documented in kilobytes
+              st1 == [st EXCEPT !.nextu = @ + 1, !.sk[key] = Append(@, NewSock(u)), !.bufbad = @ \/ bad]
+              r == Attach(st1, q, f, Len(L) + 1, IF Q.idany THEN 0 ELSE Q.id,
+                    << [e |-> "skt.new", t |-> t, u |-> u, fam |-> f, rc |-> 0],
+                       [e |-> "skt.buf", t |-> t, u |-> u, opt |-> "snd", val |-> st.cfg.sndkb * mul],
+                       [e |-> "skt.buf", t |-> t, u |-> u, opt |-> "rcv", val |-> st.cfg.rcvkb * mul] >>)
+          IN [r EXCEPT !.pts = @ \cup {DvBufUnits}, !.used = @ \cup (IF bad THEN {DvBufUnits} ELSE {})]
 
 (* radius_client_send_new() *)
 SendNew(st, q, J, dv) ==
@@ -389,4 +401,5 @@ PQuiescent(st) == (Pending(st) = {}) =>
 PDestroyed(st) == ~st.up => (NSocks(st) = 0 /\ NTimers(st) = 0 /\ Active(st) = {})
 PMemSafe(st) == st.unsafe = {}
 PNas(st) == ~st.nasbad
+PBufUnits(st) == ~st.bufbad
 =============================================================================
